@@ -165,7 +165,7 @@ impl<'a, 'tcx> M<'a, 'tcx> {
     fn fn_ref(&self, did: DefId, args: GenericArgsRef<'tcx>) -> J {
         let tcx = self.tcx;
         let mut v: Vec<(&'static str, J)> = vec![("path", J::s(self.cx.path(did)))];
-        v.push(("name", J::s(tcx.item_name(did).to_string())));
+        v.push(("name", J::s(crate::cx_name(tcx, did))));
         v.push((
             "gargs",
             J::Arr(args.iter().map(|a| J::s(a.to_string())).collect()),
@@ -288,6 +288,9 @@ impl<'a, 'tcx> M<'a, 'tcx> {
                     }
                     AggregateKind::Closure(did, _) => {
                         obj! {"k": J::s("agg"), "ak": J::s("closure"), "closure": J::s(self.cx.path(*did)), "ops": J::Arr(ops_j)}
+                    }
+                    AggregateKind::Coroutine(did, _) => {
+                        obj! {"k": J::s("agg"), "ak": J::s("closure"), "closure": J::s(self.cx.path(*did)), "coroutine": J::Bool(true), "ops": J::Arr(ops_j)}
                     }
                     AggregateKind::Tuple => {
                         obj! {"k": J::s("agg"), "ak": J::s("tuple"), "ops": J::Arr(ops_j)}
